@@ -5,12 +5,13 @@ TESTS = {"C01": "tests/test_cryomotl.py", "C03": "tests/test_cryomotl.py,tests/t
          "C09": "tests/test_cryomotl.py", "C11": "tests/test_cryomap.py", "C13": "tests/test_cryomask.py,tests/test_cryomap.py", "C15": "tests/test_tiltstack.py,tests/test_ioutils.py", "C20": "tests/test_cryomap.py,tests/test_geom.py",
          "C02": "tests/test_starfileio.py,tests/test_cryomotl.py,tests/test_wedgeutils.py,tests/test_ioutils.py", "C04": "tests/test_cryomotl.py,tests/test_wedgeutils.py,tests/test_starfileio.py", "C07": "tests/test_cryomotl.py,tests/test_pana.py,tests/test_geom.py", "C10": "tests/test_cryomotl.py", "C12": "tests/test_cryomap.py,tests/test_cryomask.py,tests/test_pana.py",
          "C14": "tests/test_cryomap.py,tests/test_cryomask.py,tests/test_geom.py,tests/test_wedgeutils.py,tests/test_pana.py", "C16": "tests/test_tiltstack.py,tests/test_ioutils.py", "C17": "tests/test_ioutils.py,tests/test_wedgeutils.py,tests/test_tiltstack.py,tests/test_starfileio.py", "C18": "tests/test_geom.py,tests/test_cryomotl.py,tests/test_pana.py", "C19": "tests/test_geom.py,tests/test_cryomotl.py,tests/test_mathutils.py"}
-for prop in sys.argv[1:]:
+OFFSET = int(os.environ.get("SEED_OFFSET", "0"))  # later rounds: m1/m2 of the round are stored as m(1+OFFSET)/m(2+OFFSET)
+for prop in [a for a in sys.argv[1:] if not a.startswith("-")]:
     for m in ("m1", "m2"):
         src = f"/tmp/wt_{prop}/_seed/{m}"
         if not os.path.exists(src + "/patch.diff"):
             continue
-        sid = f"{prop}-{m}"
+        sid = f"{prop}-m{int(m[1:]) + OFFSET}"
         dst = f"/verif/seeded/{sid}"
         os.makedirs(dst, exist_ok=True)
         for f in ("patch.diff", "demo.py", "notes.md"):
